@@ -42,6 +42,17 @@ static void print_str(const char *tag, int arg, int rbds, const char *s)
     printf(".\n");
 }
 
+/* every pointer a lookup function returned, with a copy of the string it pointed to at that moment */
+static struct kept { const char *tag; int arg, rbds; const char *p; char first[64]; } kept[256 * 8];
+static int nkept;
+static const char *keep(const char *tag, int arg, int rbds, const char *p)
+{
+    struct kept *k = &kept[nkept++];
+    k->tag = tag; k->arg = arg; k->rbds = rbds; k->p = p;
+    if (p) { strncpy(k->first, p, sizeof(k->first) - 1); k->first[sizeof(k->first) - 1] = 0; }
+    return p;
+}
+
 int main(int argc, char **argv)
 {
     int full = argc > 1 && !strcmp(argv[1], "--full");
@@ -113,14 +124,24 @@ int main(int argc, char **argv)
     /* PTY and country lookups over all 256 argument values */
     for (int a = -128; a < 128; a++)
         for (int rbds = 0; rbds < 2; rbds++) {
-            print_str("PTYNAME", a, rbds, rdsparser_pty_lookup_name((rdsparser_pty_t)a, rbds));
-            print_str("PTYSHORT", a, rbds, rdsparser_pty_lookup_short((rdsparser_pty_t)a, rbds));
-            print_str("PTYLONG", a, rbds, rdsparser_pty_lookup_long((rdsparser_pty_t)a, rbds));
+            print_str("PTYNAME", a, rbds, keep("PTYNAME", a, rbds, rdsparser_pty_lookup_name((rdsparser_pty_t)a, rbds)));
+            print_str("PTYSHORT", a, rbds, keep("PTYSHORT", a, rbds, rdsparser_pty_lookup_short((rdsparser_pty_t)a, rbds)));
+            print_str("PTYLONG", a, rbds, keep("PTYLONG", a, rbds, rdsparser_pty_lookup_long((rdsparser_pty_t)a, rbds)));
         }
     for (int a = 0; a < 256; a++) {
-        print_str("CNAME", a, 0, rdsparser_country_lookup_name((rdsparser_country_t)a));
-        print_str("CISO", a, 0, rdsparser_country_lookup_iso((rdsparser_country_t)a));
+        print_str("CNAME", a, 0, keep("CNAME", a, 0, rdsparser_country_lookup_name((rdsparser_country_t)a)));
+        print_str("CISO", a, 0, keep("CISO", a, 0, rdsparser_country_lookup_iso((rdsparser_country_t)a)));
     }
+    /* "constant string": what a kept pointer shows after all the other lookups have been made must be what it showed
+     * when it was returned */
+    for (int i = 0; i < nkept; i++)
+        if (kept[i].p && strcmp(kept[i].p, kept[i].first) != 0) {
+            printf("UNSTABLE %s %d %d ", kept[i].tag, kept[i].arg, kept[i].rbds);
+            for (const char *c = kept[i].first; *c; c++) printf("%02x", (unsigned char)*c);
+            printf(". ");
+            for (const char *c = kept[i].p; *c; c++) printf("%02x", (unsigned char)*c);
+            printf(".\n");
+        }
     printf("END\n");
     return 0;
 }
